@@ -9,7 +9,8 @@ LEVEL = "exploration"
 RULE = ("S-syn listings with planted runs of identical instructions and repeated blocks x rules whose items/groups carry "
         "`times` (integer, {min,max}, min only, max only; body spelling for operand-less items, sibling spelling for items "
         "with operands and for $and/$or/$not/$and_any_order groups, also $or groups with times inside operand lists), bounds chosen at the edges of the planted run "
-        "(r-1, r, r+1). Two oracles per execution: (1) R-dsl differential on found / leftmost start / hit windows; "
+        "(r-1, r, r+1); deterministic group probes (r alternating repetitions of a two-instruction group of every kind, framed by "
+        "markers, bounds around r). Two oracles per execution: (1) R-dsl differential on found / leftmost start / hit windows; "
         "(2) model-free twin: the same rule with every top-level repeated element written out n times (or as an $or of the "
         "written-out lengths when max-min<=3), executed on the real code and compared on verdict and first address. "
         "Non-trivial = model finds the rule or the case is one mutation from a found case; distinct = (rule, listing).")
@@ -101,9 +102,57 @@ def classify(doc, prep, o):
     return None
 
 
+def group_probe_stratum(ctx, d, n):
+    """Deterministic probes of `times` on every group kind: a listing with r repetitions of a two-instruction group (for
+    $and_any_order the repetitions alternate their order, for $or the alternatives alternate) framed by marker instructions,
+    and the bounds r-1, r, r+1 and ranges around r - so the edge behaviour does not depend on what the random generator hits."""
+    from jv import dsl, listing as L
+    rng = ctx.rng
+    for _ in range(n):
+        a, b, x, y = rng.sample(["push", "pop", "inc", "dec", "nop", "leave", "cltq", "hlt", "ret", "int3"], 4)
+        kind = rng.choice(["$and_any_order", "$and_any_order", "$and", "$or", "$not"])
+        r = rng.randint(1, 4)
+        insts, addr = [], 0x401000
+
+        def put(m):
+            nonlocal addr
+            insts.append(L.SInst(addr, m, [], None, None, 1))
+            addr += 1
+        put(x)
+        for k in range(r):
+            if kind == "$and_any_order":
+                pair = [a, b] if (k % 2 == 0) != (rng.random() < 0.2) else [b, a]
+                for m in pair:
+                    put(m)
+            elif kind == "$and":
+                put(a), put(b)
+            elif kind == "$or":
+                put(a if k % 2 == 0 else b)
+            else:
+                put(a if k % 2 == 0 else b)          # $not [y]: anything but y
+        put(y)
+        put(x)
+        group = {"$and_any_order": [a, b]} if kind == "$and_any_order" else {"$and": [a, b]} if kind == "$and" else \
+            {"$or": [a, b]} if kind == "$or" else {"$not": [y]}
+        prep = dsl.Prepared(d.ws, insts, rng)
+        ctx.ran()
+        if not prep.verify(d.ws):
+            ctx.inconc("parser disagreement on synthetic listing")
+            continue
+        d.prep, d.style = prep, f"group-probe/{kind[1:]}"
+        for t in (r, r - 1, r + 1, {"min": max(0, r - 1), "max": r}, {"min": r, "max": r + 1}, {"min": r + 1, "max": r + 2}, {"min": 0, "max": r}):
+            if isinstance(t, int) and t < 0:
+                continue
+            g = dict(group)
+            g["times"] = t
+            d.run_pattern([x, g, y], "base", True)
+        ctx.event("group_probes")
+
+
 def run_shard(ctx):
     d = drive.Driver(ctx, feat, flags="random", styles=("runs", "runs", "mixed", "tiny"), quirks=QUIRKS, extra=twin, classify=classify)
     d.loop(3000, 250000)
+    group_probe_stratum(ctx, d, ctx.share(96, 4000))
 
 
 def replay(ctx, case):
